@@ -228,6 +228,7 @@ struct World {
   int next_fd = 300;
   bool next_tx_deferred = false; uint32_t next_tx_lseq = 0;
   bool next_tx_order_unknown = false;   // UDP: sent in the same call right after a deferred datagram on the same socket: may have been queued behind it
+  bool tc_keeps_negative = false;   // a truncated negative answer keeps its authority section (SOA): cacheable if the TC bit were ignored (C08)
   bool fd_reuse = false;       // POSIX lowest-free-number allocation (default: numbers are never reused, which keeps descriptor identity trivial for the C10 oracles)
   int gen_ctr = 0;
   std::vector<VFd> graveyard;  // closed descriptors whose number has been handed out again
